@@ -220,14 +220,25 @@ pub struct KnownFinding {
 }
 
 pub fn load_known_findings() -> Vec<KnownFinding> {
-    let p = Path::new(VERIF).join("known_findings.json");
-    match std::fs::read_to_string(&p) {
-        Ok(s) => serde_json::from_str(&s).unwrap_or_else(|e| {
-            eprintln!("harness: cannot parse known_findings.json: {e}");
-            std::process::exit(2);
-        }),
-        Err(_) => vec![],
+    let mut out = vec![];
+    let mut files = vec![Path::new(VERIF).join("known_findings.json")];
+    if let Ok(rd) = std::fs::read_dir(Path::new(VERIF).join("known_findings.d")) {
+        let mut extra: Vec<_> = rd.filter_map(|e| e.ok()).map(|e| e.path()).filter(|p| p.extension().map(|x| x == "json").unwrap_or(false)).collect();
+        extra.sort();
+        files.extend(extra);
     }
+    for p in files {
+        if let Ok(s) = std::fs::read_to_string(&p) {
+            match serde_json::from_str::<Vec<KnownFinding>>(&s) {
+                Ok(v) => out.extend(v),
+                Err(e) => {
+                    eprintln!("harness: cannot parse {}: {e}", p.display());
+                    std::process::exit(2);
+                }
+            }
+        }
+    }
+    out
 }
 
 // ------------------------------------------------------------------------------------------
